@@ -166,6 +166,9 @@ def start_eager(variant, fn, env):
     if variant == "eager_ctx":
         cm = asynkit.eager_ctx(env.coro)
         return cm.__enter__(), cm
+    if variant == "cancelling":
+        cm = asynkit.cancelling(asynkit.eager(env.coro))
+        return cm.__enter__(), cm
     return asynkit.eager(env.coro), None
 
 
@@ -182,6 +185,7 @@ def run_single(case, snapshots=True):
         env.futs = make_futs(loop, case["futs"])
         n0 = len(asyncio.all_tasks())
         mark = [0]
+        ncancel = [0]
         cm = None
         if mode == "E":
             try:
@@ -222,11 +226,14 @@ def run_single(case, snapshots=True):
             elif op == "clr":
                 env.futs[ev[1]]._asyncio_future_blocking = False
             elif op == "cancel":
-                if cm is not None:
+                # inside an eager_ctx()/cancelling() block the `exit_at`-th cancel event is the block
+                # exit; cancels before it are t.cancel() calls made inside the block
+                if cm is not None and ncancel[0] >= case.get("exit_at", 0):
                     cm.__exit__(None, None, None)
                     cm = None
                 else:
                     t.cancel()
+                ncancel[0] += 1
             else:
                 raise ValueError(op)
             snap()
